@@ -1,11 +1,131 @@
-(* C11 -- placeholder while the pipeline is brought up *)
+(* C11 -- Config view equals Tor's configuration, with stable types, across change events.
+   Only statements; each closed by `exact <lemma of Proofs/...>`.
+
+   Full statement (kept visible; Spec/C11.v's oracle is its executable form):
+
+     forall i snap tr, c11_scope i = true -> model_run i = Some (true, snap, tr) ->
+                       oracle i true snap tr = true
+
+   It is FALSE of the faithful model on five input classes (open findings C11-F1..F5, see the
+   _refuted theorems).  What is proved for ALL inputs:
+     - shape stability: in every state that any history (events with any keys / any number of
+       values, edits, saves, reads) reaches from ANY bootstrapped table, an option whose declared
+       type is a list type holds a TRACKED list                      (C11_shape_stable)
+       [port lists announced by <X>PortLines rows get the parser String(), which is not a list
+        type: that is finding C11-F2, not covered by this theorem]
+     - tracked means what the property needs: an in-place operation on the list a read returns
+       makes the option pending AS that list, so that (C10_setconf_exact) the next save emits
+       exactly its elements, in order                                (C11_edit_after_read_is_saved)
+     - events write nothing on the control connection                (C11_event_silent)
+     - THE FIRST CLAUSE of the property, for every table / store / defaults of the envelope
+       outside the two bootstrap finding classes (F1 irregular port lists, F4 comma default):
+       the model of bootstrap/_do_setup/_get_defaults succeeds, and reading every option Tor
+       lists right after attaching gives Tor's value parsed by the declared type -- the default
+       when unset, names resolved case-insensitively (the Spec's boot_oracle accepts the
+       model's snapshot)                                         (C11_bootstrap_view_partial)
+     - and the state it leaves is synchronised with Tor's store in the sense of the simulation
+       relation, so that local edits and saves after attaching satisfy the whole C10 oracle
+                                                                 (C11_bootstrap_synced_partial)
+     - THE FULL STATEMENT outside the finding classes, from the input alone: attach, then ANY
+       history of CONF_CHANGED events (0 / 1 / many values per option, any interleaving of
+       lines), local assignments, in-place edits, saves (accepted or rejected), reads and
+       needs_save() -- the Spec oracle accepts the model's attach-time snapshot and whole trace:
+       after every event each option without a pending local change reads as the NEW value
+       parsed by its declared type (list options as tracked lists; unset -> default), and
+       read-edit-save afterwards sends exactly the edited list   (C11_oracle_holds_partial)
+       [what keeps it `_partial`: c11_known i = false (exact complement of the finding classes)
+        and `no socks_endpoint() operation in the history` -- socks_endpoint() is decided by the
+        oracle on the correspondence run only]
+       Key lemma: parse_keywords(arg, multiline_values=False) groups an event's lines by key
+       exactly when the event is outside class F3 (Proofs/CfgEvent.event_dict). *)
 From Coq Require Import String.
 From Coq Require Import List Bool Ascii Arith NArith ZArith.
 From TxVerif Require Import Lib.Bytes Lib.CfgLib Spec.CfgTypes Spec.TorStore Spec.CfgOracle Spec.C10 Spec.C11
-  Model.Config Proofs.C11Proofs.
+  Model.Config Proofs.C10Proofs Proofs.C11Proofs Proofs.CfgSim Proofs.CfgSimRun Proofs.CfgBoot Proofs.CfgTop.
 Import ListNotations.
+
+Theorem C11_shape_stable : forall i st0 ops st k v,
+  m_bootstrap i = Ok st0 -> reaches (option_names i) st0 ops st ->
+  list_typed st k -> dget k (m_config st) = Some v -> exists l, v = CList true l.
+Proof.
+  intros i st0 ops st k v Hb Hr.
+  exact (proj1 (proj2 (reaches_tracked _ _ _ _ Hr (bootstrap_tracked i st0 Hb))) k v).
+Qed.
+Print Assumptions C11_shape_stable.
+
+Theorem C11_edit_after_read_is_saved : forall st k l o l',
+  m_getattr st k = Ok (st, k, GConfig (CList true l)) ->
+  dmem k (m_unsaved st) = false ->
+  py_list_op o l = inl l' ->
+  exists st1, m_listop st k o = Ok (st1, None) /\
+    m_unsaved st1 = m_unsaved st ++ [(k, UAlias)] /\
+    m_config st1 = dset k (CList true l') (m_config st) /\
+    item_args st1 (k, UAlias) = map (fun x => (k, atom_text x)) l'.
+Proof. exact edit_tracked_is_pending. Qed.
+Print Assumptions C11_edit_after_read_is_saved.
 
 Theorem C11_event_silent : forall names st items st' ob,
   m_step names st (OpEvent items) = Some (st', ob) -> o_wrote ob = [].
 Proof. exact event_silent. Qed.
 Print Assumptions C11_event_silent.
+
+Theorem C11_bootstrap_view_partial : forall i,
+  c11_scope i = true -> benign_boot i = true ->
+  exists st0 snap, m_bootstrap i = Ok st0 /\ m_snapshot st0 (option_names i) = Some (st0, snap) /\
+                   boot_oracle i true snap = true.
+Proof. exact bootstrap_view. Qed.
+Print Assumptions C11_bootstrap_view_partial.
+
+Theorem C11_bootstrap_synced_partial : forall i,
+  table_ok (i_table i) = true -> store_ok (i_table i) (i_store i) = true ->
+  defaults_ok (options (i_table i)) (i_defaults i) = true -> benign_boot i = true ->
+  exists st0, m_bootstrap i = Ok st0 /\ Rel (options (i_table i)) (i_defaults i) st0 (mon0 i).
+Proof. exact bootstrap_synced. Qed.
+Print Assumptions C11_bootstrap_synced_partial.
+
+Theorem C11_oracle_holds_partial : forall i b snap tr,
+  c11_scope i = true -> c11_known i = false -> forallb c11_op (i_ops i) = true ->
+  model_run i = Some (b, snap, tr) ->
+  b = true /\ oracle i b snap tr = true.
+Proof. exact c11_oracle_holds. Qed.
+Print Assumptions C11_oracle_holds_partial.
+
+(* ---- the open findings: the full statement fails on a concrete input of each class ---- *)
+Theorem C11_portlist_bootstrap_refuted :
+  exists i, portlist_bootstrap_irregular i = true /\ c11_scope i = true /\
+            exists snap tr, model_run i = Some (true, snap, tr) /\ oracle i true snap tr = false.
+Proof. exists w11_f1. destruct f11_1_refuted as [[H1 H2] H3]. auto. Qed.
+Print Assumptions C11_portlist_bootstrap_refuted.
+
+Theorem C11_portlist_conf_changed_refuted :
+  exists i, portlist_conf_changed i = true /\ c11_scope i = true /\
+            exists snap tr, model_run i = Some (true, snap, tr) /\ oracle i true snap tr = false.
+Proof. exists w11_f2. destruct f11_2_refuted as [[H1 H2] H3]. auto. Qed.
+Print Assumptions C11_portlist_conf_changed_refuted.
+
+Theorem C11_multi_then_keyword_refuted :
+  exists i, conf_changed_multi_then_keyword i = true /\ c11_scope i = true /\
+            exists snap tr, model_run i = Some (true, snap, tr) /\ oracle i true snap tr = false.
+Proof. exists w11_f3. destruct f11_3_refuted as [[H1 H2] H3]. auto. Qed.
+Print Assumptions C11_multi_then_keyword_refuted.
+
+Theorem C11_comma_default_refuted :
+  exists i, comma_default_unsplit i = true /\ c11_scope i = true /\
+            exists snap tr, model_run i = Some (true, snap, tr) /\ oracle i true snap tr = false.
+Proof. exists w11_f4. destruct f11_4_refuted as [[H1 H2] H3]. auto. Qed.
+Print Assumptions C11_comma_default_refuted.
+
+Theorem C11_edit_while_detached_refuted :
+  exists i, edit_while_detached i = true /\ c11_scope i = true /\
+            exists snap tr, model_run i = Some (true, snap, tr) /\ oracle i true snap tr = false.
+Proof. exists w11_f5. destruct f11_5_refuted as [[H1 H2] H3]. auto. Qed.
+Print Assumptions C11_edit_while_detached_refuted.
+
+(* non-vacuity: an input outside every class -- defaults in use, events with many / one / zero
+   values, names in any case, socks_endpoint(), read-edit-save on the list an event installed --
+   meets the hypotheses and the oracle accepts the model's behaviour on it *)
+Example C11_nonvacuous :
+  c11_scope w11_ok = true /\ c11_known w11_ok = false /\
+  exists snap tr, model_run w11_ok = Some (true, snap, tr) /\ oracle w11_ok true snap tr = true
+    /\ concat (map o_wrote tr) = [bs "SETCONF Log=""info file /tmp/x"" Log=""err stderr"" Log=""debug stderr"" ExitNodes=b"].
+Proof. exact ok11_example. Qed.
